@@ -261,7 +261,7 @@ def run(ck: common.Check):
     if answers is None:
         ck.broken.append({"what": "driver Drivers/C06.lean", "detail": drv.broken})
         answers = [None] * len(reqs)
-    n_steps = n_refused = n_over = 0
+    n_steps = n_refused = n_over = n_model_steps = 0
     for r in results:
         c = r["case"]
         if "harness_error" in r:
@@ -287,11 +287,16 @@ def run(ck: common.Check):
                 ck.corr_broken("C06:outcome", {**c, "at_step": o["i"]}, o["out"], m["outcome"])
                 break
             ms = [[k, b] for k, b in m["state"]]
+            n_model_steps += 1
             if sorted(ms) != sorted(o["state"]) or (c["kind"] == "mem" and ms != o["state"]):
                 ck.corr_broken("C06:store-after-step", {**c, "at_step": o["i"]},
                                [x for x in o["state"] if x not in ms][:4], [x for x in ms if x not in o["state"]][:4])
                 break
-    ck.extra.update(steps_total=n_steps, refused=n_refused, overwrites=n_over, histories=len(cases))
+    ck.extra["explanation"] = (
+        "proof about the key-view model (refusal is a no-op, overwrite = fresh by simulation on the geff-owned part, induction "
+        "over histories); tied to the implementation by byte snapshots before/after every call of generated histories and by "
+        "comparison of the complete store after every step with the model's prediction; writes across zarr formats are a known finding")
+    ck.extra.update(traces_validated_against_impl=n_model_steps, steps_total=n_steps, refused=n_refused, overwrites=n_over, histories=len(cases))
     ck.assumptions += [
         "stores are compared as key -> bytes maps (MemoryStore dict / directory walk); empty directories are not content",
         "the model treats stored documents as opaque ids; equality of documents across writes is the equality of their bytes",
